@@ -328,20 +328,23 @@ class Puppet:
             self.msg(rng.choice(self.members), {"commit": v})
 
     # ---- flood (C16; only with opts["flood"], draws no randomness otherwise) ----
-    def flood_setup(self):
-        """Byzantine members: a random subset whose weight stays below the quorum (so that they
-        never complete a certificate on their own), each with its own rising view counter per
-        message kind."""
+    def flood_setup(self, rounds):
+        """Byzantine members: a random subset (1..opts["flood"]["byz"] members) whose weight stays
+        below the quorum (so that they never complete a certificate on their own), each with its
+        own rising view counter per message kind; about opts["flood"]["votes"] flood votes per
+        scenario, shared between them."""
         f, rng = self.opts["flood"], self.rng
+        want = rng.range(1, f.get("byz", 3))
         byz, w = [], 0
         for i in rng.shuffle(list(range(self.n))):
-            if len(byz) < f.get("byz", 3) and w + self.c[i][1] < M.quorum(self.c):
+            if len(byz) < want and w + self.c[i][1] < M.quorum(self.c):
                 byz.append(i)
                 w += self.c[i][1]
         self.byz = byz
         base = rng.choice([2, 2, 60, 10 ** 6, 1 << 40, U64MAX - 10 ** 6])
         self.fl_off = {(i, k): base + rng.below(3) for i in byz for k in (0, 1)}
         self.fl_turn = 0
+        self.fl_turns = max(1, (2 * f.get("votes", 200)) // (3 * rounds * max(1, len(byz))))
 
     def flood_burst(self, turns):
         """Every Byzantine member sends one validly signed vote per turn for a view nobody is in,
@@ -367,7 +370,7 @@ class Puppet:
                     m = {"commit": M.commit(M.view(G, E, v), M.header(v % 1000, pid))}
                     self.note("flood:commit")
                 else:
-                    m = {"timeout": M.timeout(M.view(G, E, v), None, self.last_cqc if rng.chance(1, 3) else None)}
+                    m = {"timeout": M.timeout(M.view(G, E, v), None, self.last_cqc if rng.chance(1, 8) else None)}
                     self.note("flood:timeout")
                 if z == 1:
                     self.note("flood:bad_sig")
@@ -381,17 +384,17 @@ class Puppet:
         self.pending_crash = None
         flood = self.opts.get("flood")
         if flood:
-            self.flood_setup()
+            self.flood_setup(rounds)
         for _ in range(rounds):
             start = len(self.ops)
             if flood and self.rng.chance(1, 2):
-                self.flood_burst(flood.get("turns", 20))
+                self.flood_burst(self.fl_turns)
             if self.rng.chance(7, 10) and self.J is not None:
                 self.commit_round()
             else:
                 self.timeout_round()
             if flood:
-                self.flood_burst(flood.get("turns", 20))
+                self.flood_burst(self.fl_turns)
             for _ in range(self.rng.below(3)):
                 self.noise()
             cm = self.opts.get("crash_more")
